@@ -247,6 +247,7 @@ func (fr *Frame) execInstr(in ssa.Instruction) {
 	case *ssa.Phi:
 		fr.phi(n)
 	case *ssa.Call:
+		fr.panicEdge(n)
 		res := fr.call(n.Common(), n, n.Type())
 		if res != nil {
 			fr.set(n, res)
@@ -1115,51 +1116,65 @@ func (fr *Frame) guardCheck(n *ssa.FieldAddr, xv *Value, p *Ptr, np *Ptr) {
 	if !ok || nt.Obj().Pkg() == nil {
 		return
 	}
-	gm := x.eng.guards[nt.Obj().Pkg().Path()+"."+nt.Obj().Name()]
-	if gm == nil {
+	key := nt.Obj().Pkg().Path() + "." + nt.Obj().Name()
+	gm, em := x.eng.guards[key], x.eng.exclusive[key]
+	if gm == nil && em == nil {
 		return
 	}
 	stt, _ := nt.Underlying().(*types.Struct)
-	if stt == nil {
+	if stt == nil || np.Local != nil {
 		return
 	}
 	fname := stt.Field(n.Field).Name()
-	gd := gm[fname]
-	if gd == nil {
-		return
-	}
-	if np.Local != nil {
-		return
-	}
 	write := guardedWrite(n)
-	if gd.Mutex == "" && !write {
-		return
-	}
 	freshObj := Ge(xv.C[0], x.entryAlloc)
-	if gd.Mutex == "" {
-		fr.obligation("guarded", "immutable-field-"+fname+"-written-only-on-an-object-allocated-in-this-call", fr.reach, freshObj,
-			nt.Obj().Name()+"."+fname+" is immutable after construction")
-		return
+	// flags of the mutex field mu of the same object: exclusive hold, and (RWMutex) shared hold
+	holds := func(mu string) (excl Term, shared Term, ok bool) {
+		mi := -1
+		for i := 0; i < stt.NumFields(); i++ {
+			if stt.Field(i).Name() == mu {
+				mi = i
+			}
+		}
+		if mi < 0 {
+			fr.x.cur.errors = append(fr.x.cur.errors, fmt.Sprintf("guarded %s.%s by %s: no such mutex field", nt.Obj().Name(), fname, mu))
+			return TFalse, TFalse, false
+		}
+		base := *x.ptrOf(xv)
+		base.Path = append(append([]PathEl(nil), base.Path...), PathEl{Field: mi})
+		h := x.Load(fr.cur, x.normPtr(&base))
+		if len(h.C) < 1 {
+			fr.x.cur.errors = append(fr.x.cur.errors, fmt.Sprintf("guarded %s.%s by %s: not a sync.Mutex / sync.RWMutex", nt.Obj().Name(), fname, mu))
+			return TFalse, TFalse, false
+		}
+		excl, shared = h.C[0], TFalse
+		if len(h.C) > 1 {
+			shared = h.C[1]
+		}
+		return excl, shared, true
 	}
-	mi := -1
-	for i := 0; i < stt.NumFields(); i++ {
-		if stt.Field(i).Name() == gd.Mutex {
-			mi = i
+	if gd := gm[fname]; gd != nil {
+		switch {
+		case gd.Mutex == "" && write:
+			fr.obligation("guarded", "immutable-field-"+fname+"-written-only-on-an-object-allocated-in-this-call", fr.reach, freshObj,
+				nt.Obj().Name()+"."+fname+" is immutable after construction")
+		case gd.Mutex != "":
+			if excl, shared, ok := holds(gd.Mutex); ok {
+				kind, cond := "read", Or(excl, shared, freshObj)
+				if write {
+					kind, cond = "write", Or(excl, freshObj)
+				}
+				fr.obligation("guarded", fmt.Sprintf("%s-of-%s-with-%s-held", kind, fname, gd.Mutex), fr.reach, cond,
+					fmt.Sprintf("%s.%s is guarded by %s: held(x.%s) || allocated in this call (a shared hold of a RWMutex suffices for reads)", nt.Obj().Name(), fname, gd.Mutex, gd.Mutex))
+			}
 		}
 	}
-	if mi < 0 {
-		fr.x.cur.errors = append(fr.x.cur.errors, fmt.Sprintf("guarded %s.%s by %s: no such mutex field", nt.Obj().Name(), fname, gd.Mutex))
-		return
+	if gd := em[fname]; gd != nil {
+		if excl, _, ok := holds(gd.Mutex); ok {
+			fr.obligation("guarded", fmt.Sprintf("use-of-%s-with-%s-held-exclusively", fname, gd.Mutex), fr.reach, Or(excl, freshObj),
+				fmt.Sprintf("%s.%s is used under the exclusive hold of %s (whole-call serialisation): held(x.%s) || allocated in this call", nt.Obj().Name(), fname, gd.Mutex, gd.Mutex))
+		}
 	}
-	base := *x.ptrOf(xv)
-	base.Path = append(append([]PathEl(nil), base.Path...), PathEl{Field: mi})
-	held := x.Load(fr.cur, x.normPtr(&base))
-	kind := "read"
-	if write {
-		kind = "write"
-	}
-	fr.obligation("guarded", fmt.Sprintf("%s-of-%s-with-%s-held", kind, fname, gd.Mutex), fr.reach, Or(held.C[0], freshObj),
-		fmt.Sprintf("%s.%s is guarded by %s: held(x.%s) || allocated in this call", nt.Obj().Name(), fname, gd.Mutex, gd.Mutex))
 }
 
 // guardedWrite: is the address used for anything but loads?
@@ -1273,4 +1288,85 @@ func (x *Exec) syncProxy(st *State, pr proxyRec, toProxy bool) {
 	} else {
 		x.Store(st, pr.base, x.Load(st, pp))
 	}
+}
+
+// panicEdge: the function has a deferred function literal that calls recover(), and the call about to be executed may
+// panic. Then the deferred calls registered so far run and the function returns through its recover block (go/ssa
+// Function.Recover: it returns the named results) - a return like any other, which must meet the postconditions (a lock
+// taken before the call must have been released by a deferred Unlock). The state at the panic is the state before the
+// call with the whole heap havocked (the callee may have done part of its work; mutex flags kept: callees are
+// lock-neutral on this path too). Only calls in the function's own frame are considered (a panic inside an inlined
+// callee is a panic of the call that inlined it); panics of non-call instructions are the safety obligations.
+func (fr *Frame) panicEdge(n *ssa.Call) {
+	x := fr.x
+	if fr.parent != nil || fr.fn.Recover == nil || len(fr.dryStack) > 0 || fr.inPanicEdge {
+		return
+	}
+	if _, isBuiltin := n.Common().Value.(*ssa.Builtin); isBuiltin {
+		return
+	}
+	if callee := n.Common().StaticCallee(); callee != nil {
+		switch callee.RelString(nil) {
+		case "(*sync.Mutex).Lock", "(*sync.Mutex).Unlock", "(*sync.RWMutex).Lock", "(*sync.RWMutex).Unlock", "(*sync.RWMutex).RLock", "(*sync.RWMutex).RUnlock":
+			return
+		}
+	}
+	recovers := false
+	for _, d := range fr.defers {
+		if d.Block().Dominates(fr.curBlock) && deferRecovers(d) {
+			recovers = true
+		}
+	}
+	if !recovers {
+		return
+	}
+	c := x.ctx
+	savedCur, savedReach, savedBlock, savedPos, savedDead := fr.cur, fr.reach, fr.curBlock, fr.curInstrPos, fr.dead
+	flag := c.Fresh("panics", SBool)
+	st := fr.cur.Clone()
+	na := c.Fresh("alloc", SInt)
+	c.Assume(Le(st.alloc, na))
+	x.setAlloc(st, na)
+	x.havocAll(st)
+	fr.cur = st
+	fr.reach = c.Name(fmt.Sprintf("R_%s_panic_L%d", fr.fn.Name(), x.eng.prog.Fset.Position(n.Pos()).Line), And(savedReach, flag))
+	fr.inPanicEdge = true
+	if !fr.panicNoted {
+		fr.panicNoted = true
+		c.Note(fr.fn.Name() + ": recovered-panic path modelled for each call (deferred calls run, return through the recover block)")
+	}
+	fr.runDefers()
+	fr.curBlock = fr.fn.Recover
+	for _, in := range fr.fn.Recover.Instrs {
+		if fr.dead {
+			break
+		}
+		fr.execInstr(in)
+	}
+	fr.inPanicEdge = false
+	fr.cur, fr.reach, fr.curBlock, fr.curInstrPos, fr.dead = savedCur, savedReach, savedBlock, savedPos, savedDead
+}
+
+// deferRecovers: the deferred call is a function literal (or function) whose body calls recover().
+func deferRecovers(d *ssa.Defer) bool {
+	var fn *ssa.Function
+	switch v := d.Common().Value.(type) {
+	case *ssa.MakeClosure:
+		fn, _ = v.Fn.(*ssa.Function)
+	case *ssa.Function:
+		fn = v
+	}
+	if fn == nil {
+		return false
+	}
+	for _, b := range fn.Blocks {
+		for _, in := range b.Instrs {
+			if c, ok := in.(*ssa.Call); ok {
+				if bi, ok := c.Common().Value.(*ssa.Builtin); ok && bi.Name() == "recover" {
+					return true
+				}
+			}
+		}
+	}
+	return false
 }
